@@ -515,6 +515,10 @@ func checkC14(c *Ctx) {
 		return
 	}
 	c.fn(render)
+	if m.fLP == nil {
+		c.ob("C14.R4", render.Name+"/parser-field", w.Pos(render.Decl.Pos()), false, "the dialogue runner has no line parser field of its own: lines are parsed by a parser value shared beyond this runner, whose state other runners' lines (or earlier failed lines) can leave behind")
+		return
+	}
 	allowedRead := map[*types.Var]bool{m.fStore: true, m.fFuncs: true, m.fLP: true}
 	rst := m.T.Underlying().(*types.Struct)
 	isRunnerField := func(f *types.Var) bool {
